@@ -851,7 +851,42 @@ fn gen_case(rng: &mut Rng, n: usize, tier: &str, scratch: &std::path::Path, out:
                     for _ in 0..(1 + rng.below(3)) {
                         ops.push(key_op(Tab, none));
                     }
+                    // ... sometimes a key that is refused (no character: bell in Chinese mode, ignored in English
+                    // full-width mode) while the alternative is on screen: it must leave the pre-edit text alone
+                    // (seeded change C06-C)
+                    if rng.chance(1, 2) {
+                        if rng.chance(1, 3) {
+                            let mut o2 = opts_vec(&ed.editor_options());
+                            o2[5] = o[5];
+                            o2[6] = 39;
+                            o2[8] = 1;
+                            o2[9] = 1;
+                            ops.push(Op::Opts(o2));
+                        }
+                        for _ in 0..(1 + rng.below(2)) {
+                            ops.push(Op::Key { idx_of: 0, code: 0, uni: 0xfffd, shift: false, ctrl: false, caps: false, num: false });
+                        }
+                    }
                     ops.push(if rng.chance(2, 3) { key_op(Enter, none) } else { Op::Commit });
+                }
+                _ if !selecting && rng.chance(1, 6) => {
+                    // a one-syllable choice whose word then leaves the dictionary (learn, type, choose it, unlearn):
+                    // the choice stays on screen and is committed (seeded change C04-C)
+                    let i = rng.below(world.syls.len() as u64) as usize;
+                    let text = cjk(rng).to_string();
+                    ops.push(Op::Learn(vec![world.syls[i]], text.clone()));
+                    for k in &world.keys[i] {
+                        ops.push(key_op(*k, none));
+                    }
+                    ops.push(key_op(Down, none));
+                    let n = setup.sys.iter().chain(setup.usr.iter()).filter(|e| e.key.len() == 1 && e.key[0] == world.syls[i]).count();
+                    ops.push(Op::Select(rng.below(n as u64 + 1) as usize));
+                    ops.push(Op::Unlearn(vec![world.syls[i]], text));
+                    let j = rng.below(world.syls.len() as u64) as usize;
+                    for k in &world.keys[j] {
+                        ops.push(key_op(*k, none));
+                    }
+                    ops.push(key_op(*rng.pick(&[Enter, Tab, Left]), none));
                 }
                 _ if !selecting && rng.chance(1, 6) => {
                     // a list opened with a single key, the user dictionary changed for exactly the highlighted
@@ -1303,6 +1338,15 @@ fn conv_cases(tier: &str, out_path: &str) -> i32 {
             let ph = rng.pick(&cands).clone();
             comp.push_selection(Interval { start: b, end: e, is_phrase: true, str: ph.as_str().into() });
             nsel += 1;
+        }
+        // a one-symbol choice whose text the dictionary does not hold under that syllable (an alternate reading's word,
+        // a user word removed after it was chosen): the forced choice wins over the spelled fallback
+        if rng.chance(1, 5) {
+            let b = rng.below(len as u64) as usize;
+            if !comp.symbols()[b].is_char() {
+                comp.push_selection(Interval { start: b, end: b + 1, is_phrase: true, str: cjk(&mut rng).to_string().into() });
+                nsel += 1;
+            }
         }
         // a long choice (what the editor records when a learned run of words is picked): any all-syllable range
         // of 5 symbols or more, with a text of that many characters
